@@ -95,6 +95,10 @@ def check(run):
                     effect.check_pure(run, eff, c.methods[name], roots=['self'], rule='R4b',
                                       allow=effect.LAZY_CACHE | {'attr:result', 'attr:log2prob', 'attr:measure_result'},
                                       what='application')
+                    extra = [p_ for p_ in c.methods[name].posparams[2:]]
+                    if extra:
+                        # what is passed along with the object (a measurement record) is only read
+                        effect.check_pure(run, eff, c.methods[name], roots=extra, rule='R4b', what='application')
             for name in ('copy', '__repr__', 'independent_from', 'layers_forward', 'layers_backward', 'povm'):
                 if name in c.methods:
                     effect.check_pure(run, eff, c.methods[name], allow=effect.LAZY_CACHE)
